@@ -2863,6 +2863,53 @@ def _loop_target_aliases(fn):
     return False
 
 
+def _for_over_genexp(fn):
+    """for T in (E for v in X if C): BODY     ->   for v in X: if C: T = E ; BODY          (exactly what the generator expression does, one element at a time)
+    when E is the comprehension variable itself the loop runs over X directly with T as its variable"""
+    for n in ast.walk(fn):
+        for fld in ('body', 'orelse', 'finalbody'):
+            blk = getattr(n, fld, None)
+            if not (isinstance(blk, list) and blk and isinstance(blk[0], ast.stmt)):
+                continue
+            for i, st in enumerate(blk):
+                if not (isinstance(st, ast.For) and isinstance(st.iter, ast.GeneratorExp) and len(st.iter.generators) == 1 and not st.orelse):
+                    continue
+                g = st.iter.generators[0]
+                if g.is_async:
+                    continue
+                vnames = {y.id for y in ast.walk(g.target) if isinstance(y, ast.Name)}
+                inside = {id(y) for y in ast.walk(st.iter)}
+                if any(isinstance(y, ast.Name) and y.id in vnames and id(y) not in inside for y in ast.walk(fn)):
+                    continue            # the comprehension variable would collide with a name of the function
+                if any(isinstance(y, (ast.Break,)) for b in st.body for y in ast.walk(b)) and g.ifs and False:
+                    continue
+                elt = st.iter.elt
+                if isinstance(elt, ast.Name) and isinstance(g.target, ast.Name) and elt.id == g.target.id and isinstance(st.target, ast.Name):
+                    # rename the comprehension variable to the loop variable
+                    new_name = st.target.id
+                    if any(isinstance(y, ast.Name) and y.id == new_name for c_ in g.ifs + [g.iter] for y in ast.walk(c_)):
+                        continue
+                    for c_ in g.ifs:
+                        for y in ast.walk(c_):
+                            if isinstance(y, ast.Name) and y.id == elt.id:
+                                y.id = new_name
+                    body = st.body
+                    if g.ifs:
+                        test = g.ifs[0] if len(g.ifs) == 1 else ast.BoolOp(op=ast.And(), values=list(g.ifs))
+                        body = [ast.If(test=test, body=body, orelse=[])]
+                    blk[i] = ast.copy_location(ast.For(target=st.target, iter=g.iter, body=body, orelse=[]), st)
+                else:
+                    body = [ast.Assign(targets=[st.target], value=elt)] + st.body
+                    if g.ifs:
+                        # `continue` inside BODY still continues the loop: fine
+                        test = g.ifs[0] if len(g.ifs) == 1 else ast.BoolOp(op=ast.And(), values=list(g.ifs))
+                        body = [ast.If(test=test, body=body, orelse=[])]
+                    blk[i] = ast.copy_location(ast.For(target=g.target, iter=g.iter, body=body, orelse=[]), st)
+                ast.fix_missing_locations(fn)
+                return True
+    return False
+
+
 def _forward_temps(fn):
     """t = E ; TARGET = t      ->  TARGET = E        (adjacent statements; t bound once and read once - by that copy; TARGET may be a global, an
     attribute or a subscript whose own sub-expressions are effect free)"""
@@ -2995,6 +3042,7 @@ def simplify_function(fn, ctx, inliner, cls):
         changed |= _eafp_unpack(fn)
         changed |= _globals_subscripts(fn)
         changed |= _yield_from_genexp(fn)
+        changed |= _for_over_genexp(fn)
         if _propagate_locals(fn, ctx):
             changed = True
         elif _record_dicts(fn):
